@@ -14,7 +14,9 @@ raises before any write-type event.
 """
 from __future__ import annotations
 
+import hashlib
 import os
+
 
 from vfw import fordapi, fsmon, site
 from vfw.choose import Chooser, from_bytes
@@ -38,18 +40,21 @@ SRC = ("module conf\n  !! a module\n  integer :: a\ncontains\n  subroutine run()
        "  subroutine helper()\n  end subroutine helper\nend module conf\n")
 SRC2 = "program main\n  use conf\n  call run()\nend program main\n"
 PLACEMENTS = ["default", "sibling", "nested", "absolute", "symlink", "dotdot", "inside-src", "src-equals-output",
-              "src-under-output", "graph-outside"]
+              "src-under-output", "graph-outside", "src-equals-output-via-symlink", "src-under-output-via-symlink"]
+
+
+CWDS = ["proj", "proj", "root", "sibling"]     # where FORD is started from (FORD itself never changes directory)
 
 
 def budget(tier):
     if tier == "quick":
-        return {"examples": 64, "fault_samples": 10, "no_shrink": True}
+        return {"examples": 48, "fault_samples": 10, "no_shrink": True}
     return {"examples": 640, "fault_samples": None, "shrink_cap_s": 200, "wall_cap_s": 3300}
 
 
-def gen_case(ch: Chooser, excl=()):
+def gen_case(ch: Chooser, excl=(), placement=None, cwd=None):
     excl = set(excl)
-    placement = ch.choice(PLACEMENTS)
+    placement = placement or ch.choice(PLACEMENTS)
     files = {"proj/src/conf.f90": SRC, "proj/src/main.f90": SRC2, "decoy.txt": "decoy above\n", "sibling/keep.txt": "keep\n",
              "proj/other/data.bin": "other data\n", "proj/doc.bak/old.html": "backup of docs\n", "proj/docs/notes.md": "notes\n",
              "proj/docx": "a file whose name starts like the output directory\n"}
@@ -91,6 +96,19 @@ def gen_case(ch: Chooser, excl=()):
         files["proj/code/readme.txt"] = "would be deleted with the output directory\n"
         opts["src_dir"] = "./code/src"
         opts["output_dir"] = ch.choice(["./code", "code/."])
+        refuse = True
+    elif placement == "src-equals-output-via-symlink":
+        symlinks.append(["proj/alias", "src"])
+        opts["output_dir"] = ch.choice(["./alias", "alias/"])
+        refuse = True
+    elif placement == "src-under-output-via-symlink":
+        del files["proj/src/conf.f90"], files["proj/src/main.f90"]
+        files["proj/code/src/conf.f90"] = SRC
+        files["proj/code/src/main.f90"] = SRC2
+        files["proj/code/readme.txt"] = "would be deleted with the output directory\n"
+        symlinks.append(["proj/current", "code"])
+        opts["src_dir"] = "./code/src"
+        opts["output_dir"] = ch.choice(["./current", "../proj/current"])
         refuse = True
     elif placement == "graph-outside":
         allowed = ["proj/doc", "graphs_here"]
@@ -137,10 +155,23 @@ def gen_case(ch: Chooser, excl=()):
         if ch.bool(1, 4):
             opts["search"] = False
     fault_seed = ch.int(1000)
-    return {"files": files, "symlinks": symlinks, "options": opts, "allowed": allowed, "refuse": refuse,
+    cwd = cwd or ch.choice(CWDS)
+    return {"cwd": cwd, "files": files, "symlinks": symlinks, "options": opts, "allowed": allowed, "refuse": refuse,
             "placement": placement, "fault_seed": fault_seed,
-            "classes": ["placement:" + placement] + ["opt:" + k for k in opts if k in ("graph", "graph_dir", "media_dir", "css",
+            "classes": ["placement:" + placement, "cwd:" + cwd] + ["opt:" + k for k in opts if k in ("graph", "graph_dir", "media_dir", "css",
                         "favicon", "mathjax_config", "page_dir", "externalize")] + feats}
+
+
+def enumerated(tier, excl):
+    """Every placement from every starting directory, other choices from VERIF_SEED."""
+    seed = os.environ.get("VERIF_SEED") or "1"
+    n = budget(tier)["fault_samples"]
+    for placement in PLACEMENTS:
+        for cwd in ("proj", "root", "sibling"):
+            data = b"".join(hashlib.sha256(f"{seed}|{placement}|{cwd}|{k}".encode()).digest() for k in range(8))
+            c = gen_case(Chooser(data), excl, placement=placement, cwd=cwd)
+            c["fault_samples"] = min(n, 4) if n else 12
+            yield c
 
 
 def strategy(tier, excl):
@@ -159,7 +190,8 @@ def one_run(root, case, fail_at):
     proj = root / "proj"
     with fsmon.watching(str(root), fail_at) as ctl:
         try:
-            site.build_site(proj.parent / "proj", "project.md")
+            cwd = {"proj": None, "root": root, "sibling": root / "sibling"}[case.get("cwd", "proj")]
+            site.build_site(proj.parent / "proj", "project.md", cwd=cwd)
             outcome = "ok"
         except SystemExit as e:
             outcome = f"SystemExit: {e}"
